@@ -4,5 +4,8 @@ CONSTANTS
   Families = {"expr"}
   GrowDepth = 3
   Stride = 1
+  MutStride = 1
+  DocEols = {"lf"}
+  DocBefores = {"none"}
 INVARIANTS WellFormed Emit
 CHECK_DEADLOCK FALSE
